@@ -25,6 +25,8 @@
 (* skips ranks of zero weight, and the first positive weight w is folded   *)
 (* in with w/w = 1); so are the variance / mean such a rank posts.         *)
 (* The combined result is compared whenever one logged weight is positive. *)
+(* wx = 1 flags a weight that is none of the weights the harness feeds     *)
+(* (k/4): the accumulator was not given the sample's weight ("weight").    *)
 (* Runs are independent: a rejected event prints BAD and skips its tid.    *)
 (***************************************************************************)
 EXTENDS ParallelStatsOps, Json, IOUtils, TLCExt
@@ -95,7 +97,7 @@ ChkVar(s, e)  == LET x == Expected(s) IN
 Why(s, e) ==
     IF ~ChkRank(s, e) THEN "rank"
     ELSE IF ~ChkSeq(s, e) THEN "seq"
-    ELSE IF e.ev = "U" THEN (IF ChkU(s, e) THEN "" ELSE "update")
+    ELSE IF e.ev = "U" THEN (IF e.wx # 0 THEN "weight" ELSE IF ChkU(s, e) THEN "" ELSE "update")
     ELSE IF e.ev = "G" THEN (IF ChkG(s, e) THEN "" ELSE "gather")
     ELSE IF e.ev = "C" THEN
          (IF e.rank \in s.comb THEN "combine_twice"
